@@ -6,8 +6,10 @@ import (
 	"encoding/json"
 	"errors"
 	"fmt"
+	"io"
 	"os"
 	"strings"
+	"sync"
 
 	"github.com/ddddddO/gtree"
 )
@@ -256,6 +258,82 @@ func runC14(ctx *Ctx) *Report {
 			}
 		}
 	}
+	// a reader / writer whose error is (or wraps) context.Canceled while the call's own context is alive: still a failure
+	{
+		var roots []*Tree
+		for i := 0; i < 14; i++ {
+			roots = append(roots, &Tree{Name: "c" + fmtInt(i), Kids: []*Tree{{Name: "k"}}})
+		}
+		doc := spell(roots, plainSpelling)
+		wrapped := fmt.Errorf("read body: %w", context.Canceled)
+		for mi, mode := range []string{"text", "json", "dry", "massive", "massive-json", "massive-dry", "massive-walk"} {
+			for _, side := range []string{"reader", "writer"} {
+				var r io.Reader = bytes.NewReader(doc)
+				var w io.Writer = &lockedBuf{}
+				if side == "reader" {
+					r = &errAfterReader{data: doc[:len(doc)/2], err: wrapped}
+				} else {
+					w = &errWriter2{err: wrapped}
+				}
+				if side == "writer" && mode == "massive-walk" {
+					continue
+				}
+				var opts []gtree.Option
+				if strings.HasPrefix(mode, "massive") {
+					opts = append(opts, gtree.WithMassive(context.Background()))
+				}
+				var err error
+				switch strings.TrimPrefix(mode, "massive-") {
+				case "text", "massive":
+					err = gtree.OutputFromMarkdown(w, r, opts...)
+				case "json":
+					err = gtree.OutputFromMarkdown(w, r, append(opts, gtree.WithEncodeJSON())...)
+				case "dry":
+					err = gtree.OutputFromMarkdown(w, r, append(opts, gtree.WithDryRun())...)
+				case "walk":
+					err = gtree.WalkFromMarkdown(r, func(*gtree.WalkerNode) error { return nil }, opts...)
+				}
+				var diffs []Diff
+				if err == nil {
+					diffs = append(diffs, Diff{What: "the " + side + " failed with an error wrapping context.Canceled (" + mode + ") but the call returned nil", Real: "nil", Model: "non-nil"})
+				}
+				rep.Record(map[string]any{"kind": "fault-wrapping-canceled", "mode": mode, "side": side}, "wrapcancel:"+fmtInt(mi)+side, true, diffs)
+				rep.Count("fault-wrapping-canceled:" + side)
+			}
+		}
+	}
+	// a failing writer that also offers WriteString (files, bufio writers do), and reports larger than any buffer
+	{
+		wide := bigShapes()["wide"]
+		docs := map[string][]byte{"wide": spell(wide, plainSpelling), "many": spell(bigShapes()["many-roots"], plainSpelling), "small": []byte("- a\n  - b\n")}
+		for name, doc := range docs {
+			for mi, mode := range []string{"text", "batch", "dry", "dry-batch", "json", "massive", "massive-dry"} {
+				var opts []gtree.Option
+				switch mode {
+				case "batch":
+					opts = append(opts, gtree.WithNoUseIterOfSimpleOutput())
+				case "dry":
+					opts = append(opts, gtree.WithDryRun(), gtree.WithFileExtensions([]string{".go"}))
+				case "dry-batch":
+					opts = append(opts, gtree.WithDryRun(), gtree.WithNoUseIterOfSimpleOutput())
+				case "json":
+					opts = append(opts, gtree.WithEncodeJSON())
+				case "massive":
+					opts = append(opts, gtree.WithMassive(context.Background()))
+				case "massive-dry":
+					opts = append(opts, gtree.WithMassive(context.Background()), gtree.WithDryRun())
+				}
+				w := &stringFailWriter{}
+				err := gtree.OutputFromMarkdown(w, bytes.NewReader(doc), opts...)
+				var diffs []Diff
+				if err == nil {
+					diffs = append(diffs, Diff{What: "a writer that refuses every byte (Write and WriteString) but the call returned nil (" + mode + ", " + name + ")", Real: "nil", Model: "non-nil"})
+				}
+				rep.Record(map[string]any{"kind": "string-writer-fault", "mode": mode, "doc": name}, "strwriter:"+name+fmtInt(mi), true, diffs)
+				rep.Count("string-writer-fault")
+			}
+		}
+	}
 	// the command line is a caller like any other: a standard output that refuses every byte (/dev/full) must
 	// not be reported as success, however little was to be written
 	if _, err := os.Stat("/dev/full"); err == nil {
@@ -280,3 +358,29 @@ func runC14(ctx *Ctx) *Report {
 	}
 	return rep
 }
+
+// errAfterReader delivers its data and then fails with the given error (for ever).
+type errAfterReader struct {
+	data []byte
+	err  error
+}
+
+func (r *errAfterReader) Read(p []byte) (int, error) {
+	if len(r.data) == 0 {
+		return 0, r.err
+	}
+	n := copy(p, r.data)
+	r.data = r.data[n:]
+	return n, nil
+}
+
+// errWriter2 fails every write with the given error.
+type errWriter2 struct{ err error }
+
+func (w *errWriter2) Write(p []byte) (int, error) { return 0, w.err }
+
+// stringFailWriter refuses every byte and also implements io.StringWriter, like *os.File on a full disk.
+type stringFailWriter struct{ mu sync.Mutex }
+
+func (w *stringFailWriter) Write(p []byte) (int, error)       { return 0, errWriter }
+func (w *stringFailWriter) WriteString(s string) (int, error) { return 0, errWriter }
